@@ -106,8 +106,17 @@ def add_header_to_file(
             path.touch()
             comment_style = EmptyCommentStyle
 
-    with open(path, "r", encoding="utf-8", newline="") as fp:
-        text = fp.read()
+    try:
+        with open(path, "r", encoding="utf-8", newline="") as fp:
+            text = fp.read()
+    except UnicodeDecodeError:
+        out.write(
+            _("Error: '{path}' is not encoded as UTF-8. Did not change it.").format(
+                path=path
+            )
+        )
+        out.write("\n")
+        return 1
 
     # Keep a byte order mark where it is: at the very start of the file.
     bom = ""
